@@ -198,6 +198,32 @@ def check_forms(run, A):
                       construct=f'R-SIGN::{M + name}::eps-default-float32')
 
 
+def check_pooled_power(run, A):
+    """FORM: sensors are pooled in the power domain.  Every reduction over `sensor_axis` in a mask function sums |s|^2 (abs_square(signal) or a
+    spelled-out |x|^2); the arg-max / ratio is then taken of the pooled POWER as the statement says.  A sum of magnitudes ranks sources
+    differently as soon as a source is spread unevenly over the sensors ((3, 0) vs (2, 2))."""
+    from ..walk import abs_square_operand
+    n = 0
+    for name in ('ideal_binary_mask', 'wiener_like_mask', 'lorenz_mask'):          # the masks the statement defines on POWER (quantile: magnitudes)
+        fn = A.prog.func(M + name)
+        if 'sensor_axis' not in fn.params:
+            continue
+        g = A.graphs.get(fn)
+        for t, opnd, ax, cname, e in axis_uses(g):
+            if ax is None or not (strip_views(ax).op == 'param' and strip_views(ax).args[0] == 'sensor_axis'):
+                continue
+            from ..walk import canon as canon_name
+            if canon_name(cname) not in ('numpy.sum', 'numpy.mean'):
+                continue
+            n += 1
+            x = strip_views(opnd)
+            power = call_parts(x)[0] == 'pb_bss.utils::abs_square' or abs_square_operand(x) is not None
+            run.check(power, 'FORM', f'{name}: the quantity pooled over the sensors is a power', fn.loc(t.node), '',
+                      'the sum over sensor_axis is not taken of |signal|^2 (abs_square): pooled magnitudes rank / weight the sources differently from pooled power',
+                      construct=f'FORM::{M + name}::pooled-power')
+    run.floor('C18 reductions over sensor_axis examined', n, 3)
+
+
 def check_flatten(run, A):
     for name in ('lorenz_mask', 'quantile_mask'):
         q = M + name
@@ -354,4 +380,5 @@ def check(run):
     check_axis_parametricity(run, A)
     check_forms(run, A)
     check_flatten(run, A)
+    check_pooled_power(run, A)
     check_no_mutation(run, A)
